@@ -649,7 +649,7 @@ hwloc_calc_process_location(struct hwloc_calc_location_context_s *lcontext,
     } else if (*sep == '=' && level.type == HWLOC_OBJ_OS_DEVICE) {
       /* try to match a OS device name */
       while ((obj = hwloc_get_next_osdev(topology, obj)) != NULL) {
-	if (!strcmp(obj->name, sep+1))
+	if (obj->name && !strcmp(obj->name, sep+1))
 	  return hwloc_calc_append_iodev(lcontext, cbfunc, cbdata, obj);
       }
       if (verbose >= 0)
@@ -660,7 +660,7 @@ hwloc_calc_process_location(struct hwloc_calc_location_context_s *lcontext,
       /* try to match a Misc device name */
       obj = hwloc_get_obj_by_type(topology, HWLOC_OBJ_MISC, 0);
       while (obj) {
-	if (!strcmp(obj->name, sep+1))
+	if (obj->name && !strcmp(obj->name, sep+1))
 	  return hwloc_calc_append_iodev(lcontext, cbfunc, cbdata, obj);
 	obj = obj->next_cousin;
       }
